@@ -23,7 +23,7 @@ OPN = {1: "Matrix::operator()const", 2: "Matrix::operator()", 3: "Matrix::submat
        50: "SymMatrix::operator()const", 51: "SymMatrix::operator()", 52: "SymMatrix::getlin", 53: "SymMatrix::setlin",
        54: "SymMatrix::submat(4)", 55: "SymMatrix::submat(2)", 56: "SymMatrix+SymMatrix", 57: "SymMatrix-SymMatrix",
        58: "SymMatrix*SymMatrix", 59: "SymMatrix*Matrix", 60: "SymMatrix*Vector", 61: "SymMatrix*double", 62: "SymMatrix+=",
-       63: "SymMatrix-=", 64: "SymMatrix*=", 65: "SymMatrix(Matrix)", 66: "SymMatrix::operator()(4)"
+       63: "SymMatrix-=", 64: "SymMatrix*=", 65: "SymMatrix(Matrix)", 66: "SymMatrix::operator()(4)", 70: "copy / DEEP_COPY"
        }
 # pinned-model op code of each repaired method (regression witnesses)
 PINNED = {21: 121, 55: 155, 17: 117, 18: 118, 3: 103}
@@ -112,8 +112,8 @@ def gen_case(rng, op, maxn, bad=0.15):
         if rng.random() < bad: a, b, c, d = rng.choice([(b + 1, a, c, d), (a, nl, c, d), (a, b, c, nl + 1), (a, b, d + 1, c), (U32 - 1, 0, c, d)])
         w += S(rng, nl) + [a, b, c, d]
     elif op == 70:
-        kind = rng.randint(0, 2); n = max(nl, 1)
-        w += [kind] + V(rng, (n * (n + 1) // 2) if kind == 2 else n * n if kind == 1 else n) + [n, rng.randint(0, n - 1), rng.randint(0, n - 1), gen.rint(rng)]
+        n = max(nl, 1)
+        w += V(rng, n) + [rng.randint(0, 2), rng.randint(0, n - 1), 100 + gen.rint(rng)]
     return "c13 " + " ".join(map(str, w))
 
 ALL_OPS = [o for o in OPN]
